@@ -209,7 +209,7 @@ var c20Docs = map[string]int{"ratelimit": 429, "connlimit": 429, "breaker": 503,
 func c20Stacks(c *Ctx) {
 	client := &http.Client{Transport: &http.Transport{MaxIdleConnsPerHost: 4}, Timeout: 90 * time.Second,
 		CheckRedirect: func(*http.Request, []*http.Request) error { return http.ErrUseLastResponse }}
-	c.Cases("stack", c.N(320, 9000), func(i int, r *rand.Rand) {
+	c.Cases("stack", c.N(1500, 40000), func(i int, r *rand.Rand) {
 		depth := 1 + r.IntN(8)
 		specs := make([]c20MW, depth)
 		for k := range specs {
